@@ -7,7 +7,7 @@ executors print the return value; pages + hash of the whole image follow each mu
 Wrap-around is made visible by fault probes (base 0xFFFFFFF0 + offset 0x20): the only violation is that the *wrapped*
 address (0x10, holding a sentinel) was accessed.
 """
-import os, shutil
+import os, shutil, re
 from vlib import env, e2e, gen, wasm, diff, progs
 from vlib.wasm import *
 
@@ -98,6 +98,12 @@ def history(rnd, plan, funcs, segs, shape, nops):
             ok = new <= limit
             if ok and new > 40:
                 continue  # resource-dependent: keep memories small
+            if ok and delta >= 1 and len(shape) <= 2 and rnd.random() < 0.25:
+                # the same grow first meets a host that cannot allocate: -1, nothing changes (size, contents), and the memory stays usable
+                lines.append('z 0 %d %s' % (plan.fk('grow'), hex(delta)))
+                lines.append('m 0 0')
+                lines.append('c 0 %d' % plan.fk('size'))
+                cls.append(('grow', 'host-allocation-fails', delta))
             if ok:
                 pages = new
             lines.append('c 0 %d %s' % (plan.fk('grow'), hex(delta)))
@@ -395,7 +401,8 @@ def main(chk):
         outs = {}
         if st == 'ok':
             for tag, cc, cflags in builds:
-                outs[tag] = e2e.build_and_run(w2c2, b, plan, script, os.path.join(d, tag), cc=cc, cflags=cflags, cdefs=['-DWASM_THREADS_PTHREADS'], link=['-lpthread'], timeout=600, opts=progs.opts_for(k))[:2]
+                outs[tag] = e2e.build_and_run(w2c2, b, plan, script, os.path.join(d, tag), cc=cc, cflags=cflags, cdefs=['-DWASM_THREADS_PTHREADS', '-DVERIF_WRAP_REALLOC=1'],
+                                              link=['-lpthread', '-Wl,--wrap=realloc'], timeout=600, opts=progs.opts_for(k))[:2]
         shutil.rmtree(d, ignore_errors=True)
         return k, shape, b, script, cls, st, ref, outs, plan
 
@@ -423,6 +430,13 @@ def main(chk):
                 continue
             seen = set()
             lines = script.splitlines()
+            # injected allocation failures: the count is not compared, but an injection that never fired decides nothing
+            noinj = next((i for i, l in enumerate(out) if l.endswith(' z injected=0') or l.endswith(' z injected=-1')), None)
+            if noinj is not None:
+                chk.inconclusive('history %d (%s): the allocation-failure injection did not fire at output line %d' % (k, tag, noinj))
+                ref, out = ref[:max(0, noinj - 1)], out[:max(0, noinj - 1)]
+            out = [re.sub(r' z injected=[1-9][0-9]*$', ' z injected=1', l) for l in out]
+            chk.observe('grow_with_injected_allocation_failure', sum(1 for l in out if l.endswith(' z injected=1')))
             for step, kind, ra, rb, i in diff.compare(ref, out, {}):
                 # attribute to the operation: previous 'c' line
                 j = i
